@@ -558,7 +558,7 @@ def run(chk):
         "bounds) against buffers whose capacity is fixed at their allocation sites. Plus: directory-loop check on the "
         "recursion path, table windows from superblock fields, superblock sanity tests dominate success, "
         "allocation-size arithmetic. Out-of-bounds reads through string functions, termination of every loop and "
-        "the codec libraries are not decided. Further rules: K8-dangling (a freed pointer is not left in caller-visible memory on any path to return), the growth prover inside K6 (capacity invariant of re-allocated buffers plus per-edge linear proof), K1-double (a value doubled until large enough is non-zero on loop entry). K6-fill (sa/slack.py): the metadata reader's cursor stays within the valid part of its block buffer at every store, every copy out of it is at most data_used - offset long; K6-outcontract: a do_block implementation answers a size decoded from its input only where it compared it with outsize; flexible members are sized by the allocation sites that can be behind the member that designates them. K13-trunc: a byte count that sizes a window or an allocation for a table is not narrowed below the width it was computed in.")
+        "the codec libraries are not decided. Further rules: K8-dangling (a freed pointer is not left in caller-visible memory on any path to return), the growth prover inside K6 (capacity invariant of re-allocated buffers plus per-edge linear proof), K1-double (a value doubled until large enough is non-zero on loop entry). K6-fill (sa/slack.py): the metadata reader's cursor stays within the valid part of its block buffer at every store, every copy out of it is at most data_used - offset long; K6-outcontract: a do_block implementation answers a size decoded from its input only where it compared it with outsize; flexible members are sized by the allocation sites that can be behind the member that designates them. K5-nullok (sa/nullok.py, a contradiction rule): where a function answers success on the edge on which a pointer member of its object is NULL, nothing behind the caller's success edge hands the object to a function that uses that member without a test. K13-trunc: a byte count that sizes a window or an allocation for a table is not narrowed below the width it was computed in.")
     chk.assumptions = ["a pointer to struct T points to at least sizeof(T) bytes",
                        "SZ_ADD_OV/SZ_MUL_OV results are used only where the overflow bit was tested (C05-e is partial)"]
     prog = load_program("all")
@@ -571,6 +571,14 @@ def run(chk):
     table_window_rule(chk, prog)
     super_sanity_rule(chk, prog)
     alloc_size_rule(chk, prog, files)
+    # a table the image leaves out: no reader answers "fine" without it and then uses it
+    from ..nullok import run_nullok
+    seen_n = set()
+    for tool in ("rdsquashfs", "sqfs2tar", "sqfsdiff"):
+        run_nullok(chk, load_program(tool), "K5-nullok",
+                   lambda src: src.startswith(("lib/sqfs/", "lib/common/", "bin/rdsquashfs/", "bin/sqfs2tar/", "bin/sqfsdiff/"))
+                   and "/test/" not in src, seen_n)
+    chk.floor("K5-nullok", 10)
     from ..progress import run_doubling
     run_doubling(chk, prog, "K1-double", lambda src: src.startswith(("lib/sqfs/", "lib/common/", "lib/util/")) and "/test/" not in src)
     chk.floor("K1-double", 1)
